@@ -164,6 +164,7 @@ def contact_scene(seed):
     sl.append(f'<site name="ft{b}" pos="{f(rng.normal(size=3) * 0.05)}" euler="{f(rng.uniform(-90, 90, size=3))}" size="0.02"/>')
     sl.append(f'<site name="rf{b}" pos="{f([0.3 + rng.uniform(0, 0.1), rng.normal() * 0.1, 0.1])}" euler="{f([180 + rng.uniform(-40, 40), rng.uniform(-40, 40), 0])}" size="0.02"/>')
     sensors += [f'<force site="ft{b}"/>', f'<torque site="ft{b}"/>', f'<accelerometer site="ft{b}"/>', f'<rangefinder site="rf{b}"/>']
+    sensors.append(f'<insidesite site="s{b}_0" objtype="{("xbody", "geom", "site")[b % 3]}" objname="{("b%d" % b, "g%d" % b, "ft%d" % b)[b % 3]}"/>')
     ot = ("body", "xbody", "geom", "site")[rng.integers(4)]
     on = {"body": f"b{b}", "xbody": f"b{b}", "geom": f"g{b}", "site": f"ft{b}"}[ot]
     sensors += [f'<framelinacc objtype="{ot}" objname="{on}"/>', f'<frameangacc objtype="{ot}" objname="{on}"/>', f'<velocimeter site="ft{b}"/>', f'<gyro site="ft{b}"/>']
